@@ -15,6 +15,8 @@ use trippy_core::{
 };
 
 const HOPS: u8 = 12;
+const MAX_SAMPLES: usize = 4;
+const MAX_FLOWS: usize = 7;
 
 fn rtt_ns(round: u64, hop: u8) -> u64 {
     (round + 1) * 1000 + u64::from(hop)
@@ -54,9 +56,16 @@ fn check_snapshot(st: &State, floor: u64) -> Option<String> {
     if hops.len() != usize::from(HOPS) {
         return Some(format!("round_count {n} but {} hops", hops.len()));
     }
+    // the state is the published rounds applied to an *empty state of this tracer*: its limits included
+    if st.max_samples() != MAX_SAMPLES || st.max_flows() != MAX_FLOWS {
+        return Some(format!("snapshot has max_samples {} / max_flows {}, the tracer was built with {MAX_SAMPLES} / {MAX_FLOWS}", st.max_samples(), st.max_flows()));
+    }
     let mut latest: Option<u64> = None;
     for (i, hop) in hops.iter().enumerate() {
         let h = i as u8;
+        if hop.samples().len() != n.min(MAX_SAMPLES) {
+            return Some(format!("hop {} holds {} samples after {n} rounds (max_samples {MAX_SAMPLES})", h + 1, hop.samples().len()));
+        }
         if hop.total_sent() != n || hop.total_recv() != n {
             return Some(format!("hop {} sent {} recv {} but round_count {n} (partial round)", h + 1, hop.total_sent(), hop.total_recv()));
         }
@@ -86,7 +95,7 @@ fn check_snapshot(st: &State, floor: u64) -> Option<String> {
 pub fn run(rng: &mut Rng, thorough: bool, _corpus: &[String]) -> Run {
     let mut run = Run::new();
     let rounds: u64 = if thorough { 400_000 } else { 40_000 };
-    let tracer = Builder::new(IpAddr::V4(Ipv4Addr::new(10, 0, 0, 99))).max_samples(4).build().expect("builder");
+    let tracer = Builder::new(IpAddr::V4(Ipv4Addr::new(10, 0, 0, 99))).max_samples(MAX_SAMPLES).max_flows(MAX_FLOWS).build().expect("builder");
     let stop = Arc::new(AtomicBool::new(false));
     let checked = Arc::new(AtomicU64::new(0));
     let clears = Arc::new(AtomicU64::new(0));
